@@ -311,44 +311,59 @@ def endPoint (x y rx ry : Rat) : Kind → List Coord → Pt
   | .A, [_, _, _, _, _, a, b] => (a.v + rx, b.v + ry)
   | _, _ => (x, y)
 
+/-- what the rewriting of one group knows about its successor (fixes K-C05-3/4): all `false` = plain rules -/
+structure Ctx where
+  /-- this is the last group of its instruction and an `S`/`s` instruction follows -/
+  nextS : Bool := false
+  /-- this is the last group of its instruction and a `T`/`t` instruction follows -/
+  nextT : Bool := false
+  /-- the last printed command and the next group/command are curves: a zero-length line must stay -/
+  keepZero : Bool := false
+  deriving Repr, DecidableEq
+
 /-- the C/S block: C → S when the first control point is the reflected one; a curve whose control points
-    lie on the end points becomes a line (an S only if it is the single group of its instruction);
-    returns the new `p.cx,p.cy` -/
-def stageC (p a pc : Pt) (rx ry : Rat) (single : Bool) : Kind → List Coord → Option Pt × Kind × List Coord
+    lie on the end points becomes a line (an S only if it is the single group of its instruction; not when
+    `keepS` and the second control point is not the end point); returns the new `p.cx,p.cy` -/
+def stageC (p a pc : Pt) (rx ry : Rat) (single keepS : Bool) : Kind → List Coord → Option Pt × Kind × List Coord
   | .C, [c1x, c1y, c2x, c2y, ex, ey] =>
     let cp1 : Pt := (c1x.v + rx, c1y.v + ry)
     let cp2 : Pt := (c2x.v + rx, c2y.v + ry)
+    let keep := keepS && cp2 != a
     if cp1 == pc then
-      if single && onEnds p a cp1 && onEnds p a cp2 then (none, .L, [ex, ey])
+      if !keep && single && onEnds p a cp1 && onEnds p a cp2 then (none, .L, [ex, ey])
       else (some cp2, .S, [c2x, c2y, ex, ey])
     else
-      if onEnds p a cp1 && onEnds p a cp2 then (none, .L, [ex, ey])
+      if !keep && onEnds p a cp1 && onEnds p a cp2 then (none, .L, [ex, ey])
       else (some cp2, .C, [c1x, c1y, c2x, c2y, ex, ey])
   | .S, [c2x, c2y, ex, ey] =>
     let cp2 : Pt := (c2x.v + rx, c2y.v + ry)
-    if single && onEnds p a pc && onEnds p a cp2 then (none, .L, [ex, ey])
+    let keep := keepS && cp2 != a
+    if !keep && single && onEnds p a pc && onEnds p a cp2 then (none, .L, [ex, ey])
     else (some cp2, .S, [c2x, c2y, ex, ey])
   | k, cs => (none, k, cs)
 
 /-- the Q/T block -/
-def stageQ (p a pq : Pt) (rx ry : Rat) (single : Bool) : Kind → List Coord → Option Pt × Kind × List Coord
+def stageQ (p a pq : Pt) (rx ry : Rat) (single keepT : Bool) : Kind → List Coord → Option Pt × Kind × List Coord
   | .Q, [cx, cy, ex, ey] =>
     let cp : Pt := (cx.v + rx, cy.v + ry)
+    let keep := keepT && cp != a
     if cp == pq then
-      if single && onEnds p a cp then (none, .L, [ex, ey])
+      if !keep && single && onEnds p a cp then (none, .L, [ex, ey])
       else (some cp, .T, [ex, ey])
     else
-      if onEnds p a cp then (none, .L, [ex, ey])
+      if !keep && onEnds p a cp then (none, .L, [ex, ey])
       else (some cp, .Q, [cx, cy, ex, ey])
   | .T, [ex, ey] =>
-    if single && onEnds p a pq then (none, .L, [ex, ey])
+    let keep := keepT && pq != a
+    if !keep && single && onEnds p a pq then (none, .L, [ex, ey])
     else (some pq, .T, [ex, ey])
   | k, cs => (none, k, cs)
 
-/-- the L block: zero-length line → nothing, vertical → V, horizontal → H; returns (kind, coords, skip) -/
-def stageL (p a : Pt) : Kind → List Coord → Kind × List Coord × Bool
+/-- the L block: zero-length line → nothing (or kept as `V` when `keepZero`), vertical → V, horizontal → H;
+    returns (kind, coords, skip) -/
+def stageL (p a : Pt) (keepZero : Bool) : Kind → List Coord → Kind × List Coord × Bool
   | .L, [ex, ey] =>
-    if a.1 == p.1 && a.2 == p.2 then (.L, [ex, ey], true)
+    if a.1 == p.1 && a.2 == p.2 && !keepZero then (.L, [ex, ey], true)
     else if a.1 == p.1 then (.V, [ey], false)
     else if a.2 == p.2 then (.H, [ex], false)
     else (.L, [ex, ey], false)
@@ -356,14 +371,14 @@ def stageL (p a : Pt) : Kind → List Coord → Kind × List Coord × Bool
 
 /-- `k` is the command of this group (L for the later pairs of a moveto), `single` = `i == 0 && i+di >= n`;
     `cs` has exactly `k.arity` coordinates (guaranteed by `copyInstr`) -/
-def rewrite (st : MSt) (k : Kind) (rel : Bool) (single : Bool) (cs : List Coord) : Rewritten :=
+def rewrite (st : MSt) (k : Kind) (rel : Bool) (single : Bool) (cs : List Coord) (ctx : Ctx := {}) : Rewritten :=
   let p : Pt := (st.x, st.y)
   let rx : Rat := if rel then st.x else 0
   let ry : Rat := if rel then st.y else 0
   let a := endPoint st.x st.y rx ry k cs
-  let c := stageC p a (reflPt st.x st.y st.c) rx ry single k cs
-  let q := stageQ p a (reflPt st.x st.y st.q) rx ry single c.2.1 c.2.2
-  let l := stageL p a q.2.1 q.2.2
+  let c := stageC p a (reflPt st.x st.y st.c) rx ry single ctx.nextS k cs
+  let q := stageQ p a (reflPt st.x st.y st.q) rx ry single ctx.nextT c.2.1 c.2.2
+  let l := stageL p a ctx.keepZero q.2.1 q.2.2
   { c := c.1, q := q.1, k := l.1, cs := l.2.1, skip := l.2.2, ax := a.1, ay := a.2 }
 
 /-- current and alternative candidate of a rewritten group -/
@@ -389,12 +404,18 @@ def advance (st : MSt) (r : Rewritten) (g : OutGroup) (setStart : Bool) : MSt :=
 
 /-- one iteration of the loop in `copyInstruction`.
     `k0` = the instruction's command, `first` = `i == 0`, `single` = `i == 0 && i + di >= n` -/
-def groupStep (P : NumPr) (st : MSt) (k0 : Kind) (rel : Bool) (first single : Bool) (cs : List Coord) : MSt :=
-  let r := rewrite st (groupKind k0 first) rel single cs
+def groupStep (P : NumPr) (st : MSt) (k0 : Kind) (rel : Bool) (first single : Bool) (cs : List Coord) (ctx : Ctx := {}) : MSt :=
+  let r := rewrite st (groupKind k0 first) rel single cs ctx
   if r.skip then { st with c := r.c, q := r.q }
   else
     let cand := candidates P st (isMoveFirst k0 first) rel r
     advance st r (choose st.ps cand.1 cand.2) (isMoveFirst k0 first)
+
+def isCurveKind (k : Kind) : Bool := k == .C || k == .S || k == .Q || k == .T
+
+/-- look-ahead of `copyInstruction`: `last` = this is the last group of the instruction, `next` = kind of
+    the following instruction.  The code as it is now does not look ahead. -/
+def ctxOf (_ps : PState) (_k0 : Kind) (_last : Bool) (_next : Option Kind) : Ctx := {}
 
 /-- split into chunks of `di` (the caller has checked divisibility) -/
 def chunks (di : Nat) : Nat → List Coord → List (List Coord)
@@ -402,9 +423,11 @@ def chunks (di : Nat) : Nat → List Coord → List (List Coord)
   | _ + 1, [] => []
   | f + 1, l => l.take di :: chunks di f (l.drop di)
 
-def groupLoop (P : NumPr) (k0 : Kind) (rel : Bool) (single : Bool) : MSt → Bool → List (List Coord) → MSt
+def groupLoop (P : NumPr) (k0 : Kind) (rel : Bool) (single : Bool) (next : Option Kind) : MSt → Bool → List (List Coord) → MSt
   | st, _, [] => st
-  | st, first, g :: r => groupLoop P k0 rel single (groupStep P st k0 rel first (first && single) g) false r
+  | st, first, g :: r =>
+    groupLoop P k0 rel single next
+      (groupStep P st k0 rel first (first && single) g (ctxOf st.ps k0 r.isEmpty next)) false r
 
 /-- arity `di` of an instruction with `n` coordinates, `none` = the instruction is dropped -/
 def instrArity (k : Kind) (n : Nat) : Option Nat :=
@@ -418,7 +441,7 @@ def instrArity (k : Kind) (n : Nat) : Option Nat :=
 
 def zGroup : OutGroup := { k := .Z, rel := true, items := [] }
 
-def copyInstr (P : NumPr) (st : MSt) (ins : Instr) : MSt :=
+def copyInstr (P : NumPr) (st : MSt) (ins : Instr) (next : Option Kind := none) : MSt :=
   let n := ins.cs.length
   if n == 0 then
     if ins.k == .Z then
@@ -427,9 +450,11 @@ def copyInstr (P : NumPr) (st : MSt) (ins : Instr) : MSt :=
   else
     match instrArity ins.k n with
     | none => st
-    | some di => groupLoop P ins.k ins.rel (n == di) st true (chunks di n ins.cs)
+    | some di => groupLoop P ins.k ins.rel (n == di) next st true (chunks di n ins.cs)
 
-def runInstrs (P : NumPr) (st : MSt) (is : List Instr) : MSt := is.foldl (copyInstr P) st
+def runInstrs (P : NumPr) : MSt → List Instr → MSt
+  | st, [] => st
+  | st, i :: r => runInstrs P (copyInstr P st i (r.head?.map (·.k))) r
 
 /-- the groups `ShortenPathData` prints for the instruction list -/
 def groupsOfInstrs (P : NumPr) (is : List Instr) : List OutGroup := (runInstrs P {} is).out.reverse
